@@ -133,7 +133,9 @@ PLANS = {
         'assumptions': ['NaN results are compared as a class; zero sums may carry either sign'],
         'streams': [exh('cfloat_arith_exh%d' % k, 'cfloat_s%d' % k, 'arith') for k in range(4)] +
                    [exh('cfloat_arith_mid', 'cfloat_s4', 'arith', thorough_only=True)] +
-                   [rnd('cfloat_arith_rnd%d' % k, 'cfloat_s%d' % k, 'arith', 1500, 40000, shards=4) for k in (10, 11, 12, 13)],
+                   [rnd('cfloat_arith_rnd%d' % k, 'cfloat_s%d' % k, 'arith', q, t, shards=4) for k, q, t in ((10, 1500, 40000), (11, 1200, 30000), (12, 400, 8000))] +
+                   [{'name': 'cfloat_arith_rnd13', 'driver': 'cfloat_s13', 'what': 'fp80 / quad / cfloat<100,15> samples (the exact-rational judge is slow at 15 exponent bits)',
+                     'runs': {'thorough': [dict(args=['--mode', 'rnd', '--group', 'arith', '--count', '60'], shards=6)]}}],
     },
     'C07': {
         'level': 'proof', 'coq': 'Properties_C07',
@@ -152,7 +154,7 @@ PLANS = {
         'streams': [exh('integer_arith_exh', 'integer_small', 'arith'), exh('integer_logic_exh', 'integer_small', 'logic'),
                     rnd('integer_arith_rnd', 'integer_large', 'arith', 1500, 40000, shards=16),
                     rnd('integer_logic_rnd', 'integer_large', 'logic', 500, 10000, shards=16),
-                    exh('integer_conv_exh', 'integer_small', 'conv'), rnd('integer_conv_rnd', 'integer_large', 'conv', 300, 5000, shards=16)],
+                    exh('integer_intconv_exh', 'integer_small', 'intconv'), rnd('integer_intconv_rnd', 'integer_large', 'intconv', 300, 5000, shards=16)],
     },
     'C09': {
         'level': 'proof', 'coq': 'Properties_C09',
